@@ -25,6 +25,10 @@ def digest_df(df):
     h.update(repr([str(c) for c in df.columns]).encode())
     h.update(repr([str(t) for t in df.dtypes]).encode())
     h.update(repr(list(df.index.names)).encode())
+    for c in df.columns:
+        dt = df[c].dtype
+        if str(dt) == "category":
+            h.update(repr((str(c), [repr(x) for x in dt.categories], bool(dt.ordered))).encode())
     if len(df.columns) or len(df):
         h.update(pd.util.hash_pandas_object(df, index=True).values.tobytes())
     return ["df", int(len(df)), int(len(df.columns)), h.hexdigest()[:16]]
@@ -92,34 +96,36 @@ def _kw(op):
 
 
 def run_op(pf, op, shared=None):
-    """Execute one operation of the quantifier on the (shared) handle pf; returns the canonical result.
+    """Execute one operation of the quantifier on the (shared) handle pf; returns the RAW result
+    (DataFrames are kept as objects: canon() is applied by the caller, a second time after all
+    threads have finished, so that results that alias storage reused by later calls are seen).
     `shared`: for part-file writers {"fmd","frames","paths","compression"}."""
     k = op["op"]
     if k == "to_pandas":
-        return canon(pf.to_pandas(**_kw(op)))
+        return pf.to_pandas(**_kw(op))
     if k == "slice":
         sub = pf[slice(op.get("i"), op.get("j"), op.get("step"))]
-        return [len(sub.row_groups), canon(sub.to_pandas(**_kw(op))), canon(sub.count())]
+        return [len(sub.row_groups), sub.to_pandas(**_kw(op)), sub.count()]
     if k == "index":
         sub = pf[op["i"]]
-        return [len(sub.row_groups), canon(sub.to_pandas(**_kw(op)))]
+        return [len(sub.row_groups), sub.to_pandas(**_kw(op))]
     if k == "slice_only":            # derive a handle, do not read through it
         sub = pf[slice(op.get("i"), op.get("j"), op.get("step"))]
         return [len(sub.row_groups), [int(rg.num_rows) for rg in sub.row_groups]]
     if k == "iter":
-        return [canon(df) for df in pf.iter_row_groups(**_kw(op))]
+        return [df for df in pf.iter_row_groups(**_kw(op))]
     if k == "head":
-        return canon(pf.head(op["n"], **_kw(op)))
+        return pf.head(op["n"], **_kw(op))
     if k == "statistics":
         return canon(pf.statistics)
     if k == "count":
-        return canon(pf.count(filters=_filters(op.get("filters"))))
+        return pf.count(filters=_filters(op.get("filters")))
     if k == "columns":
-        return [canon(pf.columns), canon(list(pf.cats)), canon(pf.info["rows"])]
+        return [list(pf.columns), list(pf.cats), pf.info["rows"], {str(a): str(b) for a, b in pf._base_dtype.items()}]
     if k == "pickle":
         b = pickle.dumps(pf)
         pf2 = pickle.loads(b)
-        return [sha(b)[:16], len(b), canon(pf2.to_pandas(**_kw(op))), canon(pf2.count())]
+        return [pf2.to_pandas(**_kw(op)), pf2.count(), canon(pf2.statistics), len(pf2.row_groups)]
     if k == "rebuild":               # what ParquetFile.__getitem__ did on the pinned tree for every derived handle
         from fastparquet import schema
         schema.SchemaHelper(pf._schema)
@@ -143,12 +149,17 @@ def run_op(pf, op, shared=None):
 
 
 def run_op_safe(pf, op, shared=None):
+    """raw result, or the canonical form of the exception"""
     try:
         return run_op(pf, op, shared)
     except BaseException as e:      # noqa
         if isinstance(e, SchedTimeout):
             raise
         return exc_form(e)
+
+
+def is_exc(r):
+    return isinstance(r, list) and len(r) == 3 and r[0] == "EXC"
 
 
 # ---------------------------------------------------------------------------------------------
@@ -183,6 +194,13 @@ def _leaf(v):
     return "t:" + type(v).__name__
 
 
+def module_roots():
+    """module-level memo tables of the package (regex cache, json codec cache); functools.lru_cache
+    contents cannot be inspected (trusted: documented thread-safe, value a function of the key)."""
+    from fastparquet import util, json as fpjson
+    return {"seps": util.seps, "json_codec": fpjson._codec_cache.__dict__}
+
+
 def fingerprint(root, scratch_values=None):
     """{path: leaf} of everything reachable from `root` (a ParquetFile, or any dict / thrift object).
     Dicts, lists, thrift objects and fastparquet objects are walked; an object reached through a
@@ -204,7 +222,57 @@ def fingerprint(root, scratch_values=None):
                 _walk("/" + k, root.__dict__[k], out, seen, scratch_values)
     else:
         _walk("", root, out, seen, scratch_values)
+    for k, v in module_roots().items():
+        _walk("/@module/" + k, v, out, seen, scratch_values)
     return out
+
+
+def fast_sig(root):
+    """Cheap identity-based signature of the same state: per container its id, its keys and the ids
+    of its non-container values.  Equal signatures => equal fingerprints as far as immutable leaves
+    (int, str, bytes, None, tuples of those) go; in-place mutation of a numpy/pandas leaf is NOT seen
+    by the signature (the tracer therefore also takes the full fingerprint every FULL_EVERY lines)."""
+    acc = []
+    seen = set()
+    mr = module_roots()
+    stack = [root, mr["seps"], mr["json_codec"]]
+    while stack:
+        v = stack.pop()
+        tn = type(v).__name__
+        if tn == "ThriftObject":
+            v = v.contents
+        elif tn in ("ParquetFile", "SchemaHelper"):
+            v = v.__dict__
+        if isinstance(v, dict):
+            i = id(v)
+            if i in seen:
+                acc.append(-i)
+                continue
+            seen.add(i)
+            acc.append(i)
+            acc.append(len(v))
+            for k, x in list(v.items()):
+                acc.append(k if isinstance(k, (int, str)) else repr(k))
+                if isinstance(x, (dict, list, tuple)) or type(x).__name__ in ("ThriftObject", "SchemaHelper"):
+                    stack.append(x)
+                else:
+                    acc.append(id(x))
+        elif isinstance(v, (list, tuple)):
+            i = id(v)
+            if i in seen:
+                acc.append(-i)
+                continue
+            seen.add(i)
+            acc.append(i)
+            acc.append(len(v))
+            for x in v:
+                if isinstance(x, (dict, list, tuple)) or type(x).__name__ in ("ThriftObject", "SchemaHelper"):
+                    stack.append(x)
+                else:
+                    acc.append(id(x))
+        else:
+            acc.append(id(v))
+    return hash(tuple(acc))
 
 
 def _walk(path0, v0, out, seen, scratch_values):
@@ -286,41 +354,60 @@ def make_tracer(prefix, on_line):
     return glob
 
 
-def trace_footprint(pf, op, shared=None, root=None):
-    """Run `op` alone under the tracer; returns (result, [(lineno-tag, fingerprint), ...]) with one
-    entry per CHANGE of the fingerprint (first entry = state before the operation), and the number of
-    line events, and the scratch overwrites seen."""
+FULL_EVERY = 64
+
+
+def trace_footprint(pf, op, shared=None, root=None, full_every=FULL_EVERY):
+    """Run `op` alone under the tracer; returns (raw result, changes, number of line events, scratch
+    overwrites) where changes = [(tag, fingerprint), ...] with one entry per CHANGE of the fingerprint
+    (first entry = state before the operation).  At every line event the cheap signature is taken;
+    the full fingerprint is taken whenever the signature moved, every `full_every` lines, and at the end."""
     prefix = pkg_prefix()
     target = pf if root is None else root
     scratch = {}
-    last_scr = [dict()]
     fp0 = fingerprint(target, scratch)
-    last_scr[0] = dict(scratch)
+    last_scr = [dict(scratch)]
     changes = [("start", fp0)]
     n = [0]
     scr_over = [0]
+    last_sig = [fast_sig(target)]
 
-    def on_line(frame):
-        n[0] += 1
+    def full(tag):
         sc = {}
         fp = fingerprint(target, sc)
         if fp != changes[-1][1]:
-            changes.append(("%s:%d@%d" % (os.path.basename(frame.f_code.co_filename), frame.f_lineno, n[0]), fp))
+            changes.append((tag, fp))
         if sc != last_scr[0]:
             for k_, v_ in sc.items():
                 if k_ in last_scr[0] and last_scr[0][k_] != v_:
                     scr_over[0] += 1
             last_scr[0] = sc
+
+    def on_line(frame):
+        n[0] += 1
+        sg = fast_sig(target)
+        if sg != last_sig[0] or n[0] % full_every == 0:
+            last_sig[0] = sg
+            full("%s:%d@%d" % (os.path.basename(frame.f_code.co_filename), frame.f_lineno, n[0]))
     tr = make_tracer(prefix, on_line)
     sys.settrace(tr)
     try:
         res = run_op_safe(pf, op, shared)
     finally:
         sys.settrace(None)
-    fp = fingerprint(target)
-    if fp != changes[-1][1]:
-        changes.append(("end", fp))
+    full("end")
     return res, changes, n[0], scr_over[0]
+
+
+def classify_trace(changes):
+    """[(tag, kind, keys)] per transition: kind = memo-add | destructive (a key vanished or changed)."""
+    out = []
+    for (t0, a), (t1, b) in zip(changes, changes[1:]):
+        gone = sorted(k for k in a if k not in b)
+        chg = sorted(k for k in a if k in b and a[k] != b[k])
+        add = sorted(k for k in b if k not in a)
+        out.append((t1, "destructive" if (gone or chg) else "memo-add", {"gone": gone[:6], "changed": chg[:6], "added": add[:6]}))
+    return out
 
 
 # ---------------------------------------------------------------------------------------------
@@ -333,8 +420,10 @@ class SchedTimeout(BaseException):
 
 class Sched:
     """Threads stop at every line event of fastparquet code and run only while they hold the baton.
-    plan = [[tid, nsteps], ...]: thread tid runs until it has met nsteps line events, then the next
-    entry; when the plan is exhausted the unfinished threads run to completion in tid order."""
+    plan = [[tid, n, unit], ...]: thread tid runs until it has met n line events (unit "lines", the
+    default) or until n changes of the shared-state fingerprint have been seen at its line events
+    (unit "writes": the thread is preempted right after its n-th shared write), then the next entry;
+    when the plan is exhausted the unfinished threads run to completion in tid order."""
 
     def __init__(self, n, plan, timeout=60.0):
         self.sems = [threading.Semaphore(0) for _ in range(n)]
@@ -347,7 +436,7 @@ class Sched:
 
     def _next(self):
         while self.pos < len(self.plan):
-            tid, k = self.plan[self.pos]
+            tid, k = self.plan[self.pos][:2]
             if tid >= len(self.done) or self.done[tid] or k <= 0:
                 self.pos += 1
                 continue
@@ -367,13 +456,16 @@ class Sched:
             self.dead = True
             raise SchedTimeout("thread %d never got its turn" % tid)
 
-    def on_line(self, tid):
+    def on_line(self, tid, wrote=None):
         self.steps[tid] += 1
         if self.pos >= len(self.plan):
             return
-        if self.plan[self.pos][0] == tid:
-            self.plan[self.pos][1] -= 1
-            if self.plan[self.pos][1] > 0:
+        e = self.plan[self.pos]
+        if e[0] == tid:
+            if len(e) > 2 and e[2] == "writes" and not (wrote is not None and wrote()):
+                return
+            e[1] -= 1
+            if e[1] > 0:
                 return
             self.pos += 1
         nxt = self._next()
@@ -389,18 +481,32 @@ class Sched:
             self.sems[nxt].release()
 
 
-def forced_run(pf, ops, plan, shared=None, timeout=60.0):
+def forced_run(pf, ops, plan, shared=None, timeout=60.0, root=None):
     """Run ops[i] in thread i on the shared handle under the deterministic scheduler.
-    Returns (results, steps per thread, deadlocked?)."""
+    Returns (raw results, steps per thread, deadlocked?)."""
     prefix = pkg_prefix()
     n = len(ops)
     sch = Sched(n, plan, timeout)
     res = [None] * n
+    target = pf if root is None else root
+    need_w = any(len(e) > 2 and e[2] == "writes" for e in plan)
+    state = {"sig": fast_sig(target) if need_w else None, "fp": fingerprint(target) if need_w else None}
+
+    def wrote():
+        sg = fast_sig(target)
+        if sg == state["sig"]:
+            return False
+        state["sig"] = sg
+        fp = fingerprint(target)
+        if fp == state["fp"]:
+            return False
+        state["fp"] = fp
+        return True
 
     def body(tid):
         try:
             sch.wait_turn(tid)
-            sys.settrace(make_tracer(prefix, lambda frame: sch.on_line(tid)))
+            sys.settrace(make_tracer(prefix, lambda frame: sch.on_line(tid, wrote)))
             try:
                 res[tid] = run_op_safe(pf, ops[tid], shared)
             finally:
@@ -438,10 +544,12 @@ def count_steps(pf, op, shared=None):
 
 def stress_run(pf, op_lists, rng, shared=None, switch=1e-6):
     """Thread i runs op_lists[i] in order on the shared handle; randomised start barriers; minimal
-    interpreter switch interval.  Returns list of lists of results."""
+    interpreter switch interval.  Returns (early, late): canonical results taken right after each
+    call, and again after every thread has finished (aliasing with later calls shows up there)."""
     import time
     n = len(op_lists)
-    res = [[None] * len(l) for l in op_lists]
+    raw = [[None] * len(l) for l in op_lists]
+    early = [[None] * len(l) for l in op_lists]
     groups = [rng.randrange(0, 3) for _ in range(n)]          # randomised barriers: 3 start waves
     delays = [rng.random() * 0.002 for _ in range(n)]
     barrier = threading.Barrier(n)
@@ -452,14 +560,177 @@ def stress_run(pf, op_lists, rng, shared=None, switch=1e-6):
         if groups[i]:
             time.sleep(delays[i] * groups[i])
         for j, op in enumerate(op_lists[i]):
-            res[i][j] = run_op_safe(pf, op, shared)
+            r = run_op_safe(pf, op, shared)
+            raw[i][j] = r
+            try:
+                early[i][j] = canon(r)
+            except BaseException as e:      # noqa
+                early[i][j] = ["CANON-EXC", type(e).__name__, str(e)[:80]]
     ts = [threading.Thread(target=body, args=(i,), daemon=True) for i in range(n)]
     sys.setswitchinterval(switch)
     try:
         for t in ts:
             t.start()
         for t in ts:
-            t.join(120)
+            t.join(180)
     finally:
         sys.setswitchinterval(old)
-    return res
+    hung = any(t.is_alive() for t in ts)
+    late = [[canon(r) for r in l] for l in raw]
+    return early, late, hung
+
+
+# ---------------------------------------------------------------------------------------------
+# datasets (as data: the replay rebuilds them from the spec)
+# ---------------------------------------------------------------------------------------------
+
+ALL_COLS = ["i", "f", "s", "c", "t", "o"]
+
+
+def build_frame(spec):
+    import numpy as np
+    import pandas as pd
+    n = spec["n"]
+    rs = np.random.RandomState(spec["seed"])
+    cols = {}
+    want = spec["cols"]
+    if "i" in want:
+        cols["i"] = np.arange(n, dtype="int64")
+    if "f" in want:
+        cols["f"] = np.round(rs.rand(n) * 100, 3) + np.arange(n)
+    if "s" in want:
+        cols["s"] = ["r%d" % (x % 7) for x in rs.randint(0, 1000, n)]
+    if "c" in want:
+        cols["c"] = pd.Categorical([["a", "b", "c"][x] for x in rs.randint(0, 3, n)])
+    if "t" in want:
+        cols["t"] = pd.date_range("2020-01-01", periods=n, freq="h")
+    if "o" in want:
+        a = pd.array(rs.randint(-50, 50, n), dtype="Int64")
+        a[rs.rand(n) < 0.2] = pd.NA
+        cols["o"] = a
+    if spec["kind"] == "hive":
+        cols["p"] = np.arange(n) % spec.get("nparts", 2)
+    return pd.DataFrame(cols)
+
+
+def build_dataset(spec, root):
+    """writes the dataset described by spec under root; returns the path to open"""
+    from fastparquet import write
+    df = build_frame(spec)
+    offs = list(spec["offsets"])
+    if spec["kind"] == "single":
+        path = os.path.join(root, "d.parquet")
+        write(path, df, row_group_offsets=offs, compression=spec.get("compression"))
+    elif spec["kind"] == "hive":
+        path = os.path.join(root, "d_hive")
+        write(path, df, file_scheme="hive", partition_on=["p"], row_group_offsets=offs, compression=spec.get("compression"))
+    else:
+        path = os.path.join(root, "d_multi")
+        write(path, df, file_scheme="hive", row_group_offsets=offs, compression=spec.get("compression"))
+    return path
+
+
+def solo_result(path, op, shared=None):
+    """the result the operation gives alone, on a handle of its own"""
+    from fastparquet import ParquetFile
+    return canon(run_op_safe(ParquetFile(path), op, shared))
+
+
+# ---------------------------------------------------------------------------------------------
+# the schema tree as the model sees it
+# ---------------------------------------------------------------------------------------------
+
+def make_elements(tree):
+    """tree = [[name id, num_children], ...] in depth-first order -> list of SchemaElement"""
+    from fastparquet import parquet_thrift
+    return [parquet_thrift.SchemaElement(name="n%d" % nm, num_children=(nc if nc else (None if nm % 2 else 0)))
+            for nm, nc in tree]
+
+
+def children_state(elements):
+    out = []
+    for e in elements:
+        ch = e["children"]
+        out.append(None if ch is None else tuple(int(k[1:]) for k in ch.keys()))
+    return out
+
+
+def tree_write_log(elements):
+    """run schema.schema_tree(elements) alone under the line tracer; returns the list of writes
+    [[element index, [child name ids]], ...] it performs on the elements' children, in order"""
+    from fastparquet import schema
+    log = []
+    last = [children_state(elements)]
+
+    def on_line(frame):
+        cur = children_state(elements)
+        if cur != last[0]:
+            for i, (a, b) in enumerate(zip(last[0], cur)):
+                if a != b:
+                    log.append([i, list(b) if b is not None else None])
+            last[0] = cur
+    sys.settrace(make_tracer(pkg_prefix(), on_line))
+    try:
+        schema.schema_tree(elements)
+    finally:
+        sys.settrace(None)
+    cur = children_state(elements)
+    if cur != last[0]:
+        for i, (a, b) in enumerate(zip(last[0], cur)):
+            if a != b:
+                log.append([i, list(b) if b is not None else None])
+    return log
+
+
+def tree_forced(tree, name, k):
+    """real code, real threads: thread 0 re-runs schema_tree on the SHARED built elements and is
+    preempted after its k-th write; thread 1 then looks `name` up in the root's children.
+    -> 0 found | 1 KeyError | 2 no children"""
+    from fastparquet import schema
+    els = make_elements(tree)
+    schema.schema_tree(els)
+    prefix = pkg_prefix()
+    sch = Sched(2, [[0, k, "writes"], [1, 10 ** 9, "lines"]], 30.0)
+    last = [children_state(els)]
+    res = [None, None]
+
+    def wrote():
+        cur = children_state(els)
+        if cur != last[0]:
+            last[0] = cur
+            return True
+        return False
+
+    def t0():
+        try:
+            sch.wait_turn(0)
+            sys.settrace(make_tracer(prefix, lambda frame: sch.on_line(0, wrote)))
+            try:
+                schema.schema_tree(els)
+            finally:
+                sys.settrace(None)
+            res[0] = 0
+        finally:
+            sch.finish(0)
+
+    def t1():
+        try:
+            sch.wait_turn(1)
+            try:
+                ch = els[0]["children"]
+                if ch is None:
+                    res[1] = 2
+                else:
+                    ch["n%d" % name]
+                    res[1] = 0
+            except KeyError:
+                res[1] = 1
+        finally:
+            sch.finish(1)
+    ts = [threading.Thread(target=t0, daemon=True), threading.Thread(target=t1, daemon=True)]
+    for t in ts:
+        t.start()
+    sch.start()
+    for t in ts:
+        t.join(40)
+    return res[1]
